@@ -241,9 +241,12 @@ Proof.
     injection H as <-. proj. rewrite upd_same. fin_ret. intros _.
     destruct C as [K [parts [C1 C2]]]. rewrite C1. exact C2.
   - (* DoClose *)
-    injection H as <-. proj. rewrite upd_same. destruct (client s).
-    + fin_set. exact C.
-    + fin_ret. intros _. apply closelike_done. exact C.
+    destruct (closed s).
+    + (* already closed: close() returns at once *)
+      injection H as <-. unfold with_thr. proj. rewrite upd_same. fin_ret. intros _. apply closelike_done. exact C.
+    + injection H as <-. proj. rewrite upd_same. destruct (client s).
+      * fin_set. exact C.
+      * fin_ret. intros _. apply closelike_done. exact C.
   - (* ForceFrame *)
     destruct (frame_mu s); [discriminate H|]. injection H as <-. proj. rewrite upd_same.
     fin_ret. intros _. apply closelike_done. exact C.
